@@ -44,6 +44,10 @@ pub struct Cl {
 pub struct Scn {
     pub sim: SimParams,
     pub v6: bool,
+    /// IPv4 clients and an IPv4 blacklist, but the server listens on [::] (dual stack): it sees
+    /// its peers as ::ffff:a.b.c.d
+    #[serde(default)]
+    pub dual_stack: bool,
     /// "block" | "forbidden"
     pub mode: String,
     pub list: Vec<String>,
@@ -96,7 +100,7 @@ impl Prop for C19 {
         }
     }
     fn rule(&self) -> &'static str {
-        "One case = the whole server started from a generated Config (blacklist mode block/forbidden x list empty / the client's address / others, IPv4 or IPv6 x routes of all four types: file, directory, proxy to a scripted upstream, redirect x cache on/off x 1..4 threads) and 1..3 clients connecting from chosen source addresses (loopback, private, documentation ranges; IPv6) sending 1..4 keep-alive requests each on routed paths (a file route; a directory route: a file in it, a sub-directory without and with the trailing slash, a missing file; a proxy route; a redirect route) and unrouted paths with X-Forwarded-For absent or listing listed/unlisted addresses (',' or ', ' separators, several entries); a history dimension: an unlisted client warms the cache for the path a listed client then asks. Distinct = distinct (mode, listedness of peer and of each forwarded entry, route kind, position in the connection, cache state, outcome); non-trivial = the blacklist is non-empty and at least one request involves a listed address."
+        "One case = the whole server started from a generated Config (blacklist mode block/forbidden x list empty / the client's address / others, IPv4, IPv6, or IPv4 clients on a dual-stack [::] listener x routes of all four types: file, directory, proxy to a scripted upstream, redirect x cache on/off x 1..4 threads) and 1..3 clients connecting from chosen source addresses (loopback, private, documentation ranges; IPv6) sending 1..4 keep-alive requests each on routed paths (a file route; a directory route: a file in it, a sub-directory without and with the trailing slash, a missing file; a proxy route; a redirect route) and unrouted paths with X-Forwarded-For absent or listing listed/unlisted addresses (',' or ', ' separators, several entries); a history dimension: an unlisted client warms the cache for the path a listed client then asks. Distinct = distinct (mode, listedness of peer and of each forwarded entry, route kind, position in the connection, cache state, outcome); non-trivial = the blacklist is non-empty and at least one request involves a listed address."
     }
     fn assumptions(&self) -> Vec<String> {
         vec![
@@ -107,7 +111,7 @@ impl Prop for C19 {
         ]
     }
     fn expected_counters(&self) -> Vec<&'static str> {
-        vec!["c19.block_mode", "c19.forbidden_mode", "c19.listed_peer_requests", "c19.forged_xff_by_listed_peer", "c19.unlisted_peer_forwarding_listed", "c19.all_unlisted_requests", "c19.ipv6_runs", "c19.cache_on", "c19.kind.file", "c19.kind.dir", "c19.kind.dir-sub-redirect", "c19.kind.dir-index", "c19.kind.dir-missing", "c19.kind.proxy", "c19.kind.redirect", "c19.kind.unrouted", "c19.cache_warmed_then_listed"]
+        vec!["c19.dual_stack_listener", "c19.block_mode", "c19.forbidden_mode", "c19.listed_peer_requests", "c19.forged_xff_by_listed_peer", "c19.unlisted_peer_forwarding_listed", "c19.all_unlisted_requests", "c19.ipv6_runs", "c19.cache_on", "c19.kind.file", "c19.kind.dir", "c19.kind.dir-sub-redirect", "c19.kind.dir-index", "c19.kind.dir-missing", "c19.kind.proxy", "c19.kind.redirect", "c19.kind.unrouted", "c19.cache_warmed_then_listed"]
     }
     fn real_vs_stub(&self) -> (Vec<&'static str>, Vec<&'static str>) {
         (vec!["humphrey_server::server::server::main (whole), verify_connection, file/directory/redirect/proxy handlers, blacklist_check, cache, Logger + monitor thread, humphrey::App, Address::from_headers, proxy_request"], vec!["TCP with arbitrary peer addresses, threads, clocks (humsim)", "upstream and clients are harness reference implementations", "std::fs real"])
@@ -154,7 +158,8 @@ impl Prop for C19 {
         sim.epoch_secs = 1_000_000 + rng.below(3_900_000_000);
         sim.cpu_tick_max_ns = Some(1000);
         sim.max_decisions = 400_000;
-        serde_json::to_value(Scn { sim, v6, mode: if rng.chance(1, 2) { "block" } else { "forbidden" }.into(), list, cache: rng.chance(1, 2), threads: rng.range(1, 4) as usize, clients }).unwrap()
+        let dual_stack = !v6 && Rng::new(humsim::rng::mix(&[run_seed(seed, "C19", idx), 0xC19_0002])).chance(1, 4);
+        serde_json::to_value(Scn { sim, v6, dual_stack, mode: if rng.chance(1, 2) { "block" } else { "forbidden" }.into(), list, cache: rng.chance(1, 2), threads: rng.range(1, 4) as usize, clients }).unwrap()
     }
 
     fn execute(&self, scenario: &Value) -> RunResult {
@@ -176,7 +181,10 @@ impl Prop for C19 {
         let _ = std::fs::write(format!("{}/d/x.html", dir), DIR_BYTES);
         let _ = std::fs::create_dir_all(format!("{}/d/sub", dir));
         let _ = std::fs::write(format!("{}/d/sub/index.html", dir), INDEX_BYTES);
-        let server_ip = if scn.v6 { "[::]" } else { "0.0.0.0" };
+        let server_ip = if scn.v6 || scn.dual_stack { "[::]" } else { "0.0.0.0" };
+        if scn.dual_stack && !scn.v6 {
+            rr.count("c19.dual_stack_listener", 1);
+        }
         let connect_to: SocketAddr = if scn.v6 { "[::1]:8080".parse().unwrap() } else { "127.0.0.1:8080".parse().unwrap() };
         let up_addr: SocketAddr = if scn.v6 { "[fd00::99]:9000".parse().unwrap() } else { "10.4.0.9:9000".parse().unwrap() };
         let mk_route = |t: RouteType, m: &str, path: Option<String>, lb: Option<EqMutex<LoadBalancer>>| RouteConfig { route_type: t, matches: m.into(), path, load_balancer: lb, websocket_proxy: None };
